@@ -111,8 +111,13 @@ def update_ref_deps(ref: Union[PortRef, BundleRef], resolved: Connectable):
     if hasattr(ref, "_slices"):
         for slice_ in ref._slices:
             slice_.parent = resolved
+            # Now a dependent of `resolved`, which may itself be a reference that is resolved later
+            if hasattr(resolved, "_slices"):
+                resolved._slices.add(slice_)
     if hasattr(ref, "_concats"):
         for concat in ref._concats:
             parts = list(concat.parts)
             parts = [resolved if p is ref else p for p in parts]
             concat.parts = tuple(parts)
+            if hasattr(resolved, "_concats"):
+                resolved._concats.add(concat)
